@@ -464,6 +464,82 @@ Definition scan_shortcut (t : table) (op : option string) (xs : list val) : opti
       end
   end.
 
+(* ------------------------------------------------------------------ the expression compiler's route
+   compiler.py (_ast_to_ir: a single-adverb chain  op/arg  or  op\arg  with op in _REDUCE_SCAN_OPS and arg a
+   variable) + backends/numpy_backend.py (_ir_to_source: the op -> NumPy call text tables) +
+   KlongInterpreter._compiled_args (admission: a Python int/float or a non-empty non-object ndarray).
+   The compiled function is tried first; where it does not apply or raises, the interpreter's adverb runs. *)
+Fixpoint nats_eqb (a b : list nat) : bool :=
+  match a, b with
+  | [], [] => true
+  | x :: a', y :: b' => Nat.eqb x y && nats_eqb a' b'
+  | _, _ => false
+  end.
+
+(* the shape of a non-object ndarray *)
+Fixpoint shape_of (v : val) : option (list nat) :=
+  match v with
+  | VInt _ | VReal _ => Some []
+  | VList l =>
+      match l with
+      | [] => None
+      | x :: l' =>
+          match shape_of x with
+          | Some sh =>
+              if forallb (fun y => match shape_of y with Some sh' => nats_eqb sh sh' | None => false end) l'
+              then Some (List.length l :: sh) else None
+          | None => None
+          end
+      end
+  | _ => None
+  end.
+
+Definition admitted (a : val) : bool := match shape_of a with Some _ => true | None => false end.
+
+Definition compiled_reduce_uf (act : string) : option ufunc :=
+  if String.eqb act "np.add.reduce" then Some {| uf_cast := same_dtype; uf_op := n_add |} else
+  if String.eqb act "np.multiply.reduce" then Some {| uf_cast := same_dtype; uf_op := n_mul |} else
+  if String.eqb act "np.maximum.reduce" then Some {| uf_cast := same_dtype; uf_op := n_max |} else
+  if String.eqb act "np.minimum.reduce" then Some {| uf_cast := same_dtype; uf_op := n_min |} else None.
+
+Definition compiled_scan_uf (act : string) : option ufunc :=
+  if String.eqb act "np.add.accumulate" then Some {| uf_cast := same_dtype; uf_op := n_add |} else
+  if String.eqb act "np.multiply.accumulate" then Some {| uf_cast := same_dtype; uf_op := n_mul |} else None.
+
+(* None = not compiled / the compiled function raises: the interpreter's adverb runs.
+   A text the model does not know (np.max is NOT a ufunc reduce) answers E_TABLE. *)
+Definition compiled_over (ops : list string) (rt : table) (op : option string) (a : val) : option (res val) :=
+  match op with
+  | None => None
+  | Some o =>
+      if existsb (String.eqb o) ops && admitted a then
+        match lookup o rt with
+        | None => None
+        | Some act =>
+            match compiled_reduce_uf act with
+            | None => Some (Err E_TABLE)
+            | Some uf => match a with VList l => Some (np_reduce uf l) | _ => Some (Ok a) end   (* reduce of a 0-d operand is the operand *)
+            end
+        end
+      else None
+  end.
+
+Definition compiled_scan (ops : list string) (st : table) (op : option string) (a : val) : option (res val) :=
+  match op with
+  | None => None
+  | Some o =>
+      if existsb (String.eqb o) ops && admitted a then
+        match lookup o st with
+        | None => None
+        | Some act =>
+            match compiled_scan_uf act with
+            | None => Some (Err E_TABLE)
+            | Some uf => match a with VList l => Some (np_accumulate uf l) | _ => None end      (* accumulate refuses a scalar *)
+            end
+        end
+      else None
+  end.
+
 (* ------------------------------------------------------------------ equality tests used by Converge *)
 Fixpoint zs_eqb (a b : list Z) : bool :=
   match a, b with
@@ -530,16 +606,21 @@ Definition isinstance_of (p q : val) : bool :=
   end.
 Definition conv_eq (p q : val) : bool := isinstance_of p q && kg_equal p q.
 
-(* Python truth of the predicate's result in `while klong.eval(...)` *)
-Definition truthy (v : val) : res bool :=
+(* Python truth of the predicate's result in `while klong.eval(...)`: bool() of a number, a str, a dict, and
+   of a NumPy array, which raises ValueError unless the array has exactly one element *)
+Fixpoint truthy (v : val) : res bool :=
   match v with
   | VInt z => Ok (negb (Z.eqb z 0))
   | VReal f => Ok (negb (SFeqb f (S754_zero false)))
   | VChar _ => Ok true
   | VStr s => Ok (negb (Nat.eqb (List.length s) 0))
   | VDict kvs => Ok (negb (Nat.eqb (List.length kvs) 0))
-  | VList _ => Err E_UNMODELLED
+  | VList [x] => truthy x
+  | VList _ => Err E_TYPE
   end.
+
+(* the source text of the loop tests that `truthy` models *)
+Definition while_test_model : string := "klong.eval(KGCall(a, b, arity=1))".
 
 (* ------------------------------------------------------------------ the adverbs *)
 Section Adverbs.
@@ -852,3 +933,10 @@ Definition adverb_fn_model : list (string * (string * string)) :=
 
 (* the source text of the guard that zero_divisor models *)
 Definition zero_divisor_guard_model : string := "a.ndim == 1 and bool((a[1:] == 0).any())".
+
+(* compiler.py _REDUCE_SCAN_OPS and the reduce / scan text tables of NumpyBackendProvider._ir_to_source *)
+Definition redscan_ops_model : list string := ["&"; "*"; "+"; "|"].
+Definition compiled_reduce_model : table :=
+  [ ("&", "np.minimum.reduce"); ("*", "np.multiply.reduce"); ("+", "np.add.reduce"); ("|", "np.maximum.reduce") ].
+Definition compiled_scan_model : table := [ ("*", "np.multiply.accumulate"); ("+", "np.add.accumulate") ].
+Definition compiled_template_model : string := "f'{method}({arg_src})'".
